@@ -551,6 +551,40 @@ func ruleRootRegistered(c *Ctx) {
 	if setCall == nil {
 		return
 	}
+	// on the effect normal form: every path stores the root, or knows it to be nil, or knows that the cache already
+	// holds this very root under the pseudo location (the entry it has just read is identical to the root)
+	simAllOK := false
+	if paths, unsup := c.simulate(fd, nil); unsup == "" && len(paths) > 0 {
+		simAllOK = true
+		for _, p := range paths {
+			ok := false
+			for _, e := range p.effs {
+				if e.kind == "call" && e.call.call != nil && c.isCacheCall(e.call.call, "Set") && len(e.call.args) == 2 && isBareParam(e.call.args[1], root) {
+					ok = true
+				}
+			}
+			for _, cd := range p.conds {
+				b, isB := cd.v.(svBin)
+				if !isB || !cd.neg || cd.loop || b.op != token.NEQ {
+					continue
+				}
+				for _, pr := range [][2]sval{{b.x, b.y}, {b.y, b.x}} {
+					if !isBareParam(pr[0], root) {
+						continue
+					}
+					if _, isNil := pr[1].(svNil); isNil {
+						ok = true
+					}
+					if sc, isCall := pr[1].(svCall); isCall && sc.idx == 0 && sc.call != nil && c.isCacheCall(sc.call, "Get") {
+						ok = true
+					}
+				}
+			}
+			if !ok {
+				simAllOK = false
+			}
+		}
+	}
 	// every return that does not pass through the store must be under root == nil
 	const stored factBits = 1
 	n := 0
@@ -577,7 +611,7 @@ func ruleRootRegistered(c *Ctx) {
 				}
 			}
 		}
-		c.ob(rule, fmt.Sprintf("%s:return#%d", fn, n), rs.Pos(), underNil,
+		c.ob(rule, fmt.Sprintf("%s:return#%d", fn, n), rs.Pos(), underNil || simAllOK,
 			"the helper can return without registering a non-nil root (e.g. because some root is already cached): with a reused cache, the element is then expanded against the previous call's root")
 	})
 }
